@@ -245,7 +245,7 @@ func (d *fakeDest) Ack(context.Context) ([]connector.DestinationAck, error) {
 		}
 		acks = append(acks, a)
 	}
-	taken := d.pending[:c]
+	taken := append([]opencdc.Record{}, d.pending[:c]...)
 	d.pending = d.pending[c:]
 	junk := opencdc.Position("9.9.9")
 	switch act {
@@ -263,6 +263,15 @@ func (d *fakeDest) Ack(context.Context) ([]connector.DestinationAck, error) {
 		if len(acks) > 1 {
 			acks[0], acks[1] = acks[1], acks[0]
 		}
+	}
+	// a plugin that sends more acks than it took records for has, as far as the
+	// engine can tell, confirmed that many records: it drops them from its queue too
+	if n := len(acks) - len(taken); n > 0 {
+		if n > len(d.pending) {
+			n = len(d.pending)
+		}
+		taken = append(taken, d.pending[:n]...)
+		d.pending = d.pending[n:]
 	}
 	// what the plugin told the engine about the i-th record it took from its queue
 	ev := Event{K: ek}
@@ -436,11 +445,12 @@ func (r *fakeRegistry) NewProcessor(_ context.Context, _ string, id string, _ eg
 	return p, nil
 }
 
-// panicSite returns the first function of the engine on the panicking stack.
+// panicSite returns the first function of the engine on the panicking stack
+// (the caller of the Batch method when the panic is inside one).
 func panicSite(stack string) string {
 	const pfx = "github.com/conduitio/conduit/pkg/"
 	for _, line := range strings.Split(stack, "\n") {
-		if strings.HasPrefix(line, pfx) {
+		if strings.HasPrefix(line, pfx) && !strings.Contains(line, "funnel.(*Batch).") {
 			if i := strings.LastIndex(line, "("); i > 0 {
 				line = line[:i]
 			}
